@@ -202,12 +202,12 @@ theorem candidates_disjoint (key key' : String) (c c' : Nat × Nat × Nat × Nat
 
 /-- FRAME: storing a chunk changes what `fetch_chunk` returns for NO other chunk (other key or
     other coordinates), under any configuration, MIME type and prior file-system state -/
-theorem store_chunk_frame (cfg : Cfg) (fs fs' : FS) (key : String)
+theorem store_chunk_frame_in (cfg : Cfg) (fs fs' : FS) (key : String)
     (c : Nat × Nat × Nat × Nat × Nat × Nat) (buf : Bytes) (mime : String) (ow : Bool)
-    (hs : storeChunk cfg fs key c buf mime ow = .ok fs')
+    (hs : storeChunkIn cfg fs key c buf mime ow = .ok fs')
     (key' : String) (c' : Nat × Nat × Nat × Nat × Nat × Nat) (hne : ¬ (key = key' ∧ c = c')) :
-    fetchChunk fs' key' c' = fetchChunk fs key' c' := by
-  unfold storeChunk at hs
+    fetchChunkIn fs' key' c' = fetchChunkIn fs key' c' := by
+  unfold storeChunkIn at hs
   have := writeAt_ok _ _ _ _ _ hs
   subst this
   have ht : targetOf cfg mime (chunkPath cfg.flat key c) = cand cfg.flat (compresses cfg mime) key c := by
@@ -221,7 +221,47 @@ theorem store_chunk_frame (cfg : Cfg) (fs fs' : FS) (key : String)
   have h3 := get_put_other fs t _ (contentOf cfg mime buf) (hd true false)
   have h4 := get_put_other fs t _ (contentOf cfg mime buf) (hd true true)
   simp only [cand, Bool.false_eq_true, if_false, if_true] at h1 h2 h3 h4
-  unfold fetchChunk probe
+  unfold fetchChunkIn probe
   rw [h1, h2, h3, h4]
+
+theorem storeChunk_ok (cfg : Cfg) (fs fs' : FS) (key : String) (c : Nat × Nat × Nat × Nat × Nat × Nat) (buf : Bytes)
+    (mime : String) (ow : Bool) (hs : storeChunk cfg fs key c buf mime ow = .ok fs') :
+    chunkRefused key = false ∧ storeChunkIn cfg fs key c buf mime ow = .ok fs' := by
+  unfold storeChunk at hs
+  split at hs
+  · cases hs
+  · rename_i h; exact ⟨by simpa using h, hs⟩
+
+/-- FRAME (with the name check): storing a chunk changes what `fetch_chunk` returns for no other chunk -/
+theorem store_chunk_frame (cfg : Cfg) (fs fs' : FS) (key : String)
+    (c : Nat × Nat × Nat × Nat × Nat × Nat) (buf : Bytes) (mime : String) (ow : Bool)
+    (hs : storeChunk cfg fs key c buf mime ow = .ok fs')
+    (key' : String) (c' : Nat × Nat × Nat × Nat × Nat × Nat) (hne : ¬ (key = key' ∧ c = c')) :
+    fetchChunk fs' key' c' = fetchChunk fs key' c' := by
+  obtain ⟨_, hin⟩ := storeChunk_ok cfg fs fs' key c buf mime ow hs
+  unfold fetchChunk
+  split
+  · rfl
+  · exact store_chunk_frame_in cfg fs fs' key c buf mime ow hin key' c' hne
+
+/-- a key that makes the chunk's name absolute or contains `..` is refused by both operations, and the file
+    system is not touched -/
+theorem chunk_key_escape_refused (cfg : Cfg) (fs : FS) (key : String) (c : Nat × Nat × Nat × Nat × Nat × Nat)
+    (buf : Bytes) (mime : String) (ow : Bool) (h : chunkRefused key = true) :
+    storeChunk cfg fs key c buf mime ow = .error .refused ∧ fetchChunk fs key c = .error .refused := by
+  simp [storeChunk, fetchChunk, h]
+
+/-- (with the name check) a chunk stored under any configuration is read back by `fetch_chunk` -/
+theorem fetch_chunk_after_store (cfg : Cfg) (fs fs' : FS) (key : String)
+    (c : Nat × Nat × Nat × Nat × Nat × Nat) (buf : Bytes) (mime : String) (ow : Bool)
+    (hs : storeChunk cfg fs key c buf mime ow = .ok fs')
+    (hfree : ∀ q, (q = chunkPath true key c ∨ q = chunkPath false key c ∨
+        q = gzName (chunkPath true key c) ∨ q = gzName (chunkPath false key c)) →
+        q ≠ targetOf cfg mime (chunkPath cfg.flat key c) → fs.get q = none) :
+    fetchChunk fs' key c = .ok (.bytes buf) := by
+  obtain ⟨hk, hin⟩ := storeChunk_ok cfg fs fs' key c buf mime ow hs
+  unfold fetchChunk
+  simp only [hk, Bool.false_eq_true, if_false]
+  exact fetch_chunk_after_store_in cfg fs fs' key c buf mime ow hin hfree
 
 end NgVerif.FileStore
